@@ -143,7 +143,8 @@ async def prog_fault(flavor, p):
     from ..scenarios import run_injected, post_checks
     inject = ("fault", p["op"], p["fault"]) if p.get("fault") else None
     res = await run_injected(flavor, p["ctype"], p["shape"], "alone", inject, sc_kw={"timeouts": {"connect": 11.0, "read": 13.0, "write": 17.0, "pool": 19.0},
-                                                                                     "retries": p.get("retries", 0)})
+                                                                                     "retries": p.get("retries", 0),
+                                                                                     "trace_raise": p.get("trace_raise")})
     pool = res["sc"].pool
     state = [norm_text(repr(pool)), [norm_text(c.info()) for c in pool.connections]]
     facts = await post_checks(res, flavor)
@@ -543,6 +544,16 @@ def plan(tier, seed):
         # establishment faults with retries configured (the retry path, with its back-off sleep and trace events)
         for op, fault, retries in ((0, "ConnectError", 1), (0, "ConnectTimeout", 2), (1, "ConnectError", 1), (1, "ReadError", 2), (2, "EOF", 1)):
             progs.append(["fault", {"ctype": ctype, "shape": "get", "op": op, "fault": fault, "retries": retries}])
+    for ctype in TYPES:
+        # the caller's trace callback itself fails: at the n-th '.started' / '.complete' event of a plain request, or at the
+        # first '.failed' event after an injected fault - what reaches the caller, and what is left behind, must agree
+        for _ in range(2 if q else 10):
+            progs.append(["fault", {"ctype": ctype, "shape": r.choice(["get", "post3"]),
+                                    "trace_raise": [r.choice([".started", ".complete"]), r.randrange(1, 9)]}])
+        for _ in range(2 if q else 10):
+            progs.append(["fault", {"ctype": ctype, "shape": r.choice(["get", "post3", "stream-partial"]), "op": r.randrange(0, 14),
+                                    "fault": r.choice(["ConnectError", "ReadError", "ReadTimeout", "EOF", "WriteError", "PartialWrite"]),
+                                    "trace_raise": [".failed", 1]}])
     for i in range(60 if q else 500):
         cfg, steps = c09.gen_history(r)
         progs.append(["history", {"cfg": cfg, "steps": steps}])
